@@ -197,6 +197,10 @@ type MusigValues struct {
 	R    Point
 	E    *big.Int
 	QPar *big.Int // g: 1 if has_even_y(Q) else n-1
+	// NonceInf records that R1 + b*R2 was the point at infinity and R = G was
+	// substituted (BIP327 "Dealing with Infinity in Nonce Aggregation"): the
+	// aggregate signature of such a session is not a valid BIP340 signature.
+	NonceInf bool
 }
 
 // Values is BIP327 GetSessionValues.
@@ -223,7 +227,8 @@ func (s MusigSession) ValuesFrom(c MusigKeyAggCtx) (MusigValues, error) {
 		return MusigValues{}, ErrMusigAggNonce
 	}
 	r := Add(r1, Mul(b, r2))
-	if r.Inf {
+	nonceInf := r.Inf
+	if nonceInf {
 		r = G()
 	}
 	e := new(big.Int).SetBytes(TaggedHash("BIP0340/challenge", Bytes32(r.X), qx, s.Msg))
@@ -232,7 +237,7 @@ func (s MusigSession) ValuesFrom(c MusigKeyAggCtx) (MusigValues, error) {
 	if !HasEvenY(c.Q) {
 		g = new(big.Int).Sub(N, big.NewInt(1))
 	}
-	return MusigValues{Ctx: c, B: b, R: r, E: e, QPar: g}, nil
+	return MusigValues{Ctx: c, B: b, R: r, E: e, QPar: g, NonceInf: nonceInf}, nil
 }
 
 func (s MusigSession) signerCoeff(pk []byte) (*big.Int, error) {
